@@ -287,6 +287,28 @@ prop(
 )
 
 
+prop(
+    "C20", "exploration",
+    "1-10 synthetic handlers (input.DeviceInfo without an openable node): capability lists drawn from the 13 signature sets of the capability "
+    "tables (both standard-keyboard signatures, NKRO, mouse, system, multimedia, joystick-like with ABS and/or FF, others), optionally with one "
+    "type added or dropped, or as random subsets of the 12 EV_* types; list order permuted, duplicates injected; physical location from a pool "
+    "of 1-4 strings incl. \"\"; identifiers equal within a location in 80%. Each case is normalised in the identity order, reversed and 5 random "
+    "orders (TestC20AllOrders: ALL orders of up to 6 handlers). Oracle: every handler in exactly one device; devices == distinct locations and "
+    "every handler sits in the device of its own location; device type = Joystick if any handler is joystick-like, else Keyboard if any is a "
+    "standard keyboard, else neither; the order-free summary (location, type, handler multiset, identifier when the group agrees) is the same "
+    "for every order; HandlerType is invariant under permutation/duplication of the capability list. Non-trivial = >= 2 groups, one with "
+    ">= 2 handlers of different classes.",
+    [
+        dict(test="TestC20", shards=16, checks_quick=3000, checks_thorough=150000),
+        dict(test="TestC20AllOrders", shards=16, checks_quick=150, checks_thorough=6000),
+    ],
+    level_text="Generated multisets of handlers with permutation metamorphic relation (all orders for n <= 6) and partition/type invariants.",
+    level_note="Trusted: the two handler classes the property names are decided by a set-based transcription of the capability tables (c20Class); "
+               "evdev nodes cannot be opened in the sandbox, so name/AbsInfo collection inside Normalize is not exercised.",
+    technique="metamorphic property-based testing (rapid): permutation invariance + partition invariants",
+)
+
+
 # Properties not (yet) claimed. Kept current by hand; every id of properties.jsonl is either in PROPS or here.
 _PENDING = "check not built yet in this round; planned as property-based test per DESIGN.md"
 NOT_APPLICABLE = [{"property_id": "C%02d" % i, "reason": _PENDING} for i in range(1, 21) if "C%02d" % i not in PROPS]
